@@ -474,10 +474,11 @@ def reapClosed (k : Kernel) : Kernel :=
 
 /-! ### Retransmit, segmentation, egress (tcp.rs:1118-1308, mod.rs:608) -/
 
-def retxCands (k : Kernel) : List Nat :=
+def retxCands (cfg : Cfg) (k : Kernel) : List Nat :=
   k.sockets.filterMap fun e =>
     match e.2.tcb with
-    | some t => if t.retxCandidate then some e.1 else none
+    | some t =>
+      if t.retxCandidate || (cfg.fixOrphanTimeout && e.2.fdClosed && t.state != .closed) then some e.1 else none
     | none => none
 
 /-- First loop of `check_retx`: counters / rewind per candidate, collecting the fds whose handshake
@@ -506,7 +507,7 @@ def emitHandshake (k : Kernel) (fd : Nat) : Kernel :=
 
 /-- `check_retx` (tcp.rs:1118). -/
 def checkRetx (cfg : Cfg) (k : Kernel) : Kernel :=
-  let r := k.retxCands.foldl (retxPass1Step cfg) (k, [], [])
+  let r := (k.retxCands cfg).foldl (retxPass1Step cfg) (k, [], [])
   let k2 := r.2.1.foldl emitHandshake r.1
   r.2.2.foldl (fun k fd => abortOrReap cfg k fd false) k2
 
